@@ -15,7 +15,7 @@ for f in "$D"/*; do case "$(basename "$f")" in README.md|patch.diff|*.log|*.out|
 # demo runs only; the baseline test programs run on the plain build
 ASANF=""; [ -n "$SEED_ASAN" ] && ASANF="-fsanitize=address -fno-omit-frame-pointer"
 libs() { if [ -n "$SEED_ASAN" ]; then (cd "$WT" && make clean >/dev/null 2>&1; make libs -j8 CFLAGS_EXTRA="$ASANF" LDFLAGS=-fsanitize=address); else (cd "$WT" && make libs -j8); fi; }
-build_demo() { (cd "$WT" && ASAN_OPTIONS=detect_leaks=0 cc -O1 -g -w $ASANF demo.c -I. -Imatrixssl -Icore/config -Icore/include -Icore/osdep/include -Icore/include/sfzcl -Icrypto $WRAPS matrixssl/libssl_s.a crypto/libcrypt_s.a core/libcore_s.a -lpthread -o demo_bin) >> "$LOG" 2>&1; }
+build_demo() { (cd "$WT" && ASAN_OPTIONS=detect_leaks=0 cc -O1 -g -w $ASANF $DEMO_CFLAGS demo.c -I. -Imatrixssl -Icore/config -Icore/include -Icore/osdep/include -Icore/include/sfzcl -Icrypto $WRAPS matrixssl/libssl_s.a crypto/libcrypt_s.a core/libcore_s.a -lpthread -o demo_bin) >> "$LOG" 2>&1; }
 libs >> "$LOG" 2>&1 || { echo "clean build failed" >> "$LOG"; }
 export ASAN_OPTIONS=detect_leaks=0
 build_demo; (cd "$WT" && timeout 600 ./demo_bin ${DEMO_ARGS//@WT@/$WT}) > "$OUT/demo.clean.out" 2>&1; RC_CLEAN=$?
